@@ -35,6 +35,7 @@ type step struct {
 	subs  []packet.Subscription
 	tops  []string
 	tmo   bool
+	zero  bool // Disconnect(0): a timeout argument that is already over
 	async bool
 	pkt   packet.Generic
 	name  string
@@ -270,7 +271,9 @@ func (d *director) call(s step) {
 		case "disc":
 			d.rec.log("call %d disc %s", s.c, hx.B01(s.tmo))
 			close(logged)
-			if s.tmo {
+			if s.tmo && s.zero {
+				err = cl.Disconnect(0)
+			} else if s.tmo {
 				err = cl.Disconnect(5 * time.Millisecond)
 			} else {
 				err = cl.Disconnect()
